@@ -353,6 +353,7 @@ func (vc *VC) makeMap(st *State, x *ssa.MakeMap) {
 	_, _, ksort, _ := vc.mapComps(x.Type())
 	vc.heapSet(st, name, srt, store(h, id, fmt.Sprintf("((as const (Array %s Bool)) false)", ksort)))
 	_ = vt
+	vc.newMapMirror(id, x.Type())
 	vc.setVal(x, Val{K: KMap, S: id})
 }
 
@@ -365,8 +366,13 @@ func (vc *VC) mapUpdate(st *State, x *ssa.MapUpdate) {
 		vc.unsupportedf("map type %s", x.Map.Type())
 		return
 	}
-	vc.oblige(st, "nilmap", "", not(eq(m.S, "0")), "assignment to entry in nil map")
-	vc.recordMapKey(m.S, k)
+	if vc.mapKeys[m.S] != nil {
+		// the map was made in this function: its id is a fresh allocation (>= alloc0 >= 1)
+		vc.oblige(st, "nilmap", "", "true", "assignment to entry in nil map")
+	} else {
+		vc.oblige(st, "nilmap", "", not(eq(m.S, "0")), "assignment to entry in nil map")
+	}
+	vc.recordMapUpdate(m.S, x.Map.Type(), k, v)
 	name, srt, h := vc.mapHeap(st, x.Map.Type(), ".has", "Bool")
 	vc.heapSet(st, name, srt, store(h, m.S, store(sel(h, m.S), k.S, "true")))
 	v.T = vt
